@@ -1,7 +1,7 @@
-(* Flow/Constants.v -- model of lib/analysis/constants.rs (property C13), as repaired by the `fix:`
-   commit (the remap pass skips predecessor locations that have no state).  Definitions only.
-   The unsoundness outside definite assignment (absent key = bottom in join, top in eval) is NOT
-   repaired: the model is faithful to it (known finding kf:not-definitely-assigned). *)
+(* Flow/Constants.v -- model of lib/analysis/constants.rs (property C13), as repaired by the two `fix:`
+   commits: the remap pass skips predecessor locations that have no state, and the transfer function
+   starts, at the function entry, from Top for every scalar the function writes (so that a key is
+   never absent on one side of a join).  Definitions only. *)
 From Coq Require Import ZArith List Bool NArith Arith.
 From Falcon Require Import Base.Res IL.Const IL.Expr IL.Func IL.Loc Flow.FixedPoint Flow.FpIL.
 Import ListNotations.
@@ -100,9 +100,17 @@ Definition cm_eval (m : cmap) (e : expr) : res (option const) :=
   | Some e' => match eval e' with Ok c => Ok (Some c) | Err _ => Ok None | Panic => Panic end
   end.
 
-(* ConstantsAnalysis::trans *)
-Definition c_trans (f : func) (l : floc) (st : option cmap) : res cmap :=
-  let s := match st with Some s => s | None => [] end in
+(* the state on entry to the function (repaired code): every scalar written by some instruction of the
+   function, in block order, is Top *)
+Definition written_of_op (o : operation) : list scalar :=
+  match op_scalars_written o with Some l => l | None => [] end.      (* scalars_written().unwrap_or_default() *)
+Definition entry_seed (f : func) : cmap :=
+  fold_left (fun m b =>
+               fold_left (fun m i => fold_left (fun m s => cm_set m s CTop) (written_of_op (i_op i)) m) (b_instrs b) m)
+            (f_blocks f) [].
+
+(* the rest of ConstantsAnalysis::trans, once the incoming state is chosen *)
+Definition c_body (f : func) (l : floc) (s : cmap) : res cmap :=
   match l with
   | LInstr _ _ =>
       match loc_instruction f l with
@@ -124,6 +132,19 @@ Definition c_trans (f : func) (l : floc) (st : option cmap) : res cmap :=
           end
       end
   | _ => Ok s
+  end.
+
+(* ConstantsAnalysis::trans: `from_function(..).ok_or("..")??`, then
+   `Some(state) if location != function_entry => state, _ => entry state` *)
+Definition c_trans (f : func) (l : floc) (st : option cmap) : res cmap :=
+  match from_function f with
+  | None => Err ECustom
+  | Some r =>
+      e <- r ;;
+      c_body f l (match st with
+                  | Some s => if floc_eqb l e then entry_seed f else s
+                  | None => entry_seed f
+                  end)
   end.
 
 Definition c_join (a b : cmap) : res cmap := Ok (cm_join a b).
